@@ -132,3 +132,96 @@ Lemma ex_export_side :
   exported_services "x" [("web", ["x"]); ("*", ["y"]); ("consul", ["x"; "y"])] ["web"; "api"; "consul"] = ["web"]
   /\ exported_services "y" [("web", ["x"]); ("*", ["y"]); ("consul", ["x"; "y"])] ["web"; "api"; "consul"] = ["web"; "api"].
 Proof. vm_compute. split; reflexivity. Qed.
+
+(* ------------------------------------------------------------------ a second example: retained IDs *)
+
+(* prior state: the peer's node a carries a node ID and hosts web1 (check c1) and api1 of another
+   service (check c9); node u hosts only api2 and a node-level check.  Snapshot of web: node a with
+   the SAME node ID (new content), web1 with new content, check c1 with the same owner, new status. *)
+Definition ex2_before : cat :=
+  Cat [Node pa "a" idX 5; Node pa "u" "" 1]
+      [mk_svc "a" "web1" "web" 9; mk_svc "a" "api1" "api" 9; mk_svc "u" "api2" "api" 9]
+      [Chk pa "a" "c1" "web1" "web" 7 1 3; Chk pa "a" "c9" "api1" "api" 7 1 3; Chk pa "u" "serf" "" "" 7 1 3]
+      [].
+Definition ex2_export : list inst :=
+  [Inst (Node "" "a" idX 6) (mk_svc "a" "web1" "web" 10) [Chk "" "a" "c1" "web1" "web" 7 2 3]].
+Definition ex2_snap := map (inst_set_peer pa) ex2_export.
+
+Lemma ex2_hypotheses :
+  wf ex2_before /\ snap_coh pa "web" ex2_snap /\ ids_keep_names ex2_before pa ex2_snap /\
+  check_ids_keep_owner ex2_before pa ex2_snap /\ slots_owned ex2_before pa "web" ex2_snap /\
+  ids_nonempty ex2_before pa /\
+  h_err (handle_update_service id_shuffles ex2_before pa "web" (Some ex2_export)) = None /\
+  (* the ID hypothesis is met by a stored node that really holds the received ID *)
+  (exists b i, In b (nodes ex2_before) /\ In i ex2_snap /\ n_id b = n_id (i_node i) /\ n_id b <> "") /\
+  (* and the owner hypothesis by a check id that is both stored and received *)
+  (exists k0 i k, In k0 (chks ex2_before) /\ In i ex2_snap /\ In k (i_chks i) /\ c_node k0 = n_name (i_node i) /\ c_id k0 = c_id k).
+Proof.
+  split; [apply wf_b_spec; vm_compute; reflexivity|].
+  split; [apply coherent_b_spec; vm_compute; reflexivity|].
+  split; [|split; [|split; [|split; [|split; [|split]]]]].
+  - intros i b [<-|[]] Hb _ Hid _. cbn in Hb, Hid. destruct Hb as [<-|[<-|[]]]; [reflexivity | cbn in Hid; discriminate].
+  - intros k0 i k Hk0 _ [<-|[]] [<-|[]] Hn Hid. cbn in Hk0, Hn, Hid.
+    destruct Hk0 as [<-|[<-|[<-|[]]]]; cbn in Hn, Hid |- *; try reflexivity; discriminate.
+  - intros k0 i Hk0 _ [<-|[]] Hn Hs Hno. cbn in Hk0, Hn, Hs. exfalso.
+    destruct Hk0 as [<-|[<-|[<-|[]]]]; cbn in Hn, Hs.
+    + apply (Hno (chk_set_peer pa (Chk "" "a" "c1" "web1" "web" 7 2 3))); [left; reflexivity|reflexivity].
+    + destruct Hs; discriminate.
+    + discriminate.
+  - ids_ne.
+  - vm_compute. reflexivity.
+  - exists (Node pa "a" idX 5), (inst_set_peer pa (Inst (Node "" "a" idX 6) (mk_svc "a" "web1" "web" 10) [Chk "" "a" "c1" "web1" "web" 7 2 3])).
+    cbn. repeat split; auto. discriminate.
+  - exists (Chk pa "a" "c1" "web1" "web" 7 1 3),
+           (inst_set_peer pa (Inst (Node "" "a" idX 6) (mk_svc "a" "web1" "web" 10) [Chk "" "a" "c1" "web1" "web" 7 2 3])),
+           (chk_set_peer pa (Chk "" "a" "c1" "web1" "web" 7 2 3)).
+    cbn. repeat split; auto.
+Qed.
+
+(* the premises of C17_same_peer_frame / C17_same_peer_uninvolved_nodes are met there: api1 is an
+   instance of another service in a slot the snapshot does not send; node u is not in the snapshot
+   and hosts no instance of web *)
+Lemma ex2_same_peer_premises :
+  (In (mk_svc "a" "api1" "api" 9) (svcs ex2_before) /\ s_name (mk_svc "a" "api1" "api" 9) <> "web" /\
+   forall i, In i ex2_snap -> svc_key (i_svc i) <> svc_key (mk_svc "a" "api1" "api" 9)) /\
+  ((forall i, In i ex2_snap -> n_name (i_node i) <> "u") /\
+   (forall y, In y (svcs ex2_before) -> s_peer y = pa -> s_node y = "u" -> s_name y <> "web") /\
+   In (Node pa "u" "" 1) (nodes ex2_before)).
+Proof.
+  split; [split; [cbn; auto|split; [discriminate|]]|split; [|split]].
+  - intros i [<-|[]]. cbn. discriminate.
+  - intros i [<-|[]]. cbn. discriminate.
+  - intros y Hy _ Hn. cbn in Hy. destruct Hy as [<-|[<-|[<-|[]]]]; cbn in Hn |- *; discriminate.
+  - cbn. auto.
+Qed.
+
+Lemma ex2_result :
+  h_cat (handle_update_service id_shuffles ex2_before pa "web" (Some ex2_export)) =
+  Cat [Node pa "a" idX 6; Node pa "u" "" 1]
+      [mk_svc "a" "web1" "web" 10; mk_svc "a" "api1" "api" 9; mk_svc "u" "api2" "api" 9]
+      [Chk pa "a" "c1" "web1" "web" 7 2 3; Chk pa "a" "c9" "api1" "api" 7 1 3; Chk pa "u" "serf" "" "" 7 1 3]
+      [].
+Proof. vm_compute. reflexivity. Qed.
+
+(* ------------------------------------------------------------------ an exported-service list *)
+
+(* the peer has web (with its sidecar) and api; the list now names web only *)
+Definition ex3_before : cat :=
+  Cat [Node pa "a" "" 5; Node pa "b" "" 5]
+      [mk_svc "a" "web1" "web" 9; mk_svc "a" "px" "web-sidecar-proxy" 9; mk_svc "b" "api1" "api" 9; mk_svc "a" "api2" "api" 9]
+      [Chk pa "a" "c1" "web1" "web" 7 1 3; Chk pa "b" "c2" "api1" "api" 7 1 3]
+      [].
+
+Lemma ex3_hypotheses :
+  wf ex3_before /\ ids_nonempty ex3_before pa /\
+  h_err (handle_exported_list id_shuffles ex3_before pa ["web"]) = None /\
+  In "web-sidecar-proxy" (exported_set ["web"]).
+Proof.
+  split; [apply wf_b_spec; vm_compute; reflexivity|]. split; [ids_ne|]. split; [vm_compute; reflexivity|]. cbn. auto.
+Qed.
+
+Lemma ex3_result :
+  h_cat (handle_exported_list id_shuffles ex3_before pa ["web"]) =
+  Cat [Node pa "a" "" 5] [mk_svc "a" "web1" "web" 9; mk_svc "a" "px" "web-sidecar-proxy" 9]
+      [Chk pa "a" "c1" "web1" "web" 7 1 3] [].
+Proof. vm_compute. reflexivity. Qed.
